@@ -1189,11 +1189,13 @@ def run(h):
                     h.case('translate', {'p': p, 'flags': '', 'ver': ver, 'mode': 'xpath', 'subjects': subjects})
                 h.case('functions', {'s': subjects[0], 'p': p, 'flags': ''})
     for _ in range(h.n(1300)):
-        h.case('translate', g_translate_case(r))
+        h.case('translate', g_translate_case(r), cpu=60)
     for _ in range(h.n(230)):
-        h.case('functions', g_functions_case(r))
+        # translating one pattern with large negated classes takes seconds (set algebra over code point lists) and a
+        # functions case translates it a dozen times: slow is not hung, the budget is sized accordingly
+        h.case('functions', g_functions_case(r), cpu=120)
     for _ in range(h.n(300)):
-        h.case('functions', g_group_shape_case(r))
+        h.case('functions', g_group_shape_case(r), cpu=120)
 
 
 def floors(v):
